@@ -238,21 +238,31 @@ def run(ctx):
         dm = max(dm, np.max(np.abs(tot[:, 1:])) / ms[topP][0], np.max(np.abs(tot[:, 0] - ms[topP])) / ms[topP][0])
         ctx.dev("built masses", dm, 1e-10)
         ctx.check("built momenta reproduce input masses", okm and dm < 1e-10, lambda: dict(desc, dev=dm), mechanism="build_data masses")
-        # (b) round trip
+        # (b) round trip.  The angles are measured in rest frames reached by boosts whose Lorentz factor is E/m of the
+        # intermediate state; the rounding of 1-beta^2 and of p-beta*E costs eps*gamma^2, so the tolerance is per event
+        # 1e-8 + 256*eps*gamma^2 with gamma the largest lab-frame E/m over the intermediate states of that event.
+        gam = np.ones(nev)
+        for x in children:
+            if x is not topP:
+                px = sub_p(x)
+                gam = np.maximum(gam, px[:, 0] / np.maximum(ms[x], 1e-300))
+        tol_e = 1e-8 + 256 * np.finfo(float).eps * gam ** 2
+        ctx.dev("roundtrip max gamma (observed, not judged)", float(np.max(gam)))
         worst = 0.0
         names_ok = set(repr(x) for x in ms2) == set(repr(x) for x in ms)
         for k_, v_ in ms2.items():
-            worst = max(worst, np.max(np.abs(np.asarray(v_) ** 2 - ms[k_] ** 2) / ms[topP] ** 2))  # on m^2: sqrt halves the digits at m=0
-        dcos = max(np.max(np.abs(np.asarray(c2) - c1)) for c1, c2 in zip(cos_in, cos2))
+            worst = max(worst, np.max(np.abs(np.asarray(v_) ** 2 - ms[k_] ** 2) / ms[topP] ** 2 / tol_e))  # on m^2: sqrt halves the digits at m=0
+        dcos = max(np.max(np.abs(np.asarray(c2) - c1) / tol_e) for c1, c2 in zip(cos_in, cos2))
         dphi = 0.0
         for c1, f1, f2 in zip(cos_in, phi_in, phi2):
             dd = np.abs(np.angle(np.exp(1j * (np.asarray(f2) - f1))))
-            dphi = max(dphi, np.max(dd * np.sqrt(1 - c1 * c1)))
-        ctx.dev("roundtrip masses", worst, 1e-8)
-        ctx.dev("roundtrip cos", dcos, 1e-8)
-        ctx.dev("roundtrip phi*sin", dphi, 1e-8)
-        ctx.check("helicity build->cal_angle->find_variable roundtrip", names_ok and worst < 1e-8 and dcos < 1e-8 and dphi < 1e-8,
-                  lambda: dict(desc, mass_dev=worst, cos_dev=dcos, phi_dev=dphi, names_ok=names_ok), mechanism="helicity roundtrip")
+            dphi = max(dphi, np.max(dd * np.sqrt(1 - c1 * c1) / tol_e))
+        ctx.dev("roundtrip masses / tol", worst, 1.0)
+        ctx.dev("roundtrip cos / tol", dcos, 1.0)
+        ctx.dev("roundtrip phi*sin / tol", dphi, 1.0)
+        ctx.check("helicity build->cal_angle->find_variable roundtrip", names_ok and worst < 1 and dcos < 1 and dphi < 1,
+                  lambda: dict(desc, mass_dev_over_tol=worst, cos_dev_over_tol=dcos, phi_dev_over_tol=dphi, names_ok=names_ok, max_gamma=float(np.max(gam))),
+                  mechanism="helicity roundtrip")
         ctx.case(("hel", n, k, i), nontrivial=True)
         ctx.covered("n_finals_roundtrip", n)
         ctx.covered("shape_%d" % n, k)
